@@ -56,6 +56,7 @@ static const bool AVOID_ADDSAMPLES_TEST_SEL   = C07_AV; // addSamples(default va
 static const bool AVOID_ADDCOLUMNS_USESEL_SEL = C07_AV; // addColumns(tab, ..., ELoc::SEL, ..., useSel=true)
 static const bool AVOID_UNKNOWN_WITH_CLEAN    = C07_AV; // setLocator*(..., ELoc::UNKNOWN, ..., cleanSameLocator=true): _p[-1]
 static const bool AVOID_SETITEM_USESEL        = C07_AV; // setItem(name, values, useSel=true): reads values[] out of range
+static const bool AVOID_SETITEM_ROWS_USESEL    = C07_AV; // setItem(rows, ..., useSel=true): rows checked as active ranks, written as absolute
 static const bool AVOID_RENAME_STEALING       = C07_AV; // setName(list)/setNameByLocator onto a name + suffix already used
 
 static const int T_X = 0, T_Z = 1, T_SEL = 10;
@@ -207,12 +208,11 @@ static LocArgs drawLoc(Rng& r, const Shadow& s, int ntargets, bool allowNone)
   a.clean = r.coin(0.15);
   if (allowNone && r.coin(0.12))
   {
-    // ELoc::UNKNOWN is documented as accepted ("Locator type (include ELoc::UNKNOWN)"). Together with
-    // cleanSameLocator=true the library indexes _p[-1] (Db::clearLocators): kept as a rare input class so that the
-    // crash key shows up without eating the coverage of the other histories.
-    a.type  = -1;
-    a.idx   = 0;
-    a.clean = !AVOID_UNKNOWN_WITH_CLEAN && r.coin(0.004);
+    // ELoc::UNKNOWN is documented as accepted ("Locator type (include ELoc::UNKNOWN)"), with or without
+    // cleanSameLocator (fixed in /repo ba5ef8741: clearLocators(UNKNOWN) used to index _p[-1])
+    a.type = -1;
+    a.idx  = 0;
+    if (AVOID_UNKNOWN_WITH_CLEAN) a.clean = false;
     return a;
   }
   a.type = (ntargets == 1 && r.coin(0.25)) ? r.pick(UNIQ) : r.pick(MULTI);
@@ -1055,15 +1055,14 @@ static bool gen_upd(Rng& r, const Shadow& s, Op& op)
 static bool gen_setItem(Rng& r, const Shadow& s, Op& op)
 {
   if (s.ncol() == 0 || s.nech == 0) return false;
-  // 0 setItem(rows, name, values) 1 setItem(name, values) 2 setItem(rows, names, VVD) 3 setItem(names, VVD) 4 setItem(loc, VVD)
-  // 5 setItem(name, values, useSel=true)
+  // the six overloads: 0 (rows, name, values) 1 (name, values) 2 (rows, names, VVD) 3 (names, VVD) 4 (locator, VVD)
+  // 5 (rows, locator, VVD); each with useSel false / true
   int variant = r.irange(0, 5);
-  if (variant == 5 && (AVOID_SETITEM_USESEL || !r.coin(0.15))) variant = 1;
-  int nech = s.nech;
-  int k    = (variant == 2 || variant == 3) ? r.irange(1, std::min(3, s.ncol())) : 1;
+  int nech    = s.nech;
+  int k       = (variant == 2 || variant == 3) ? r.irange(1, std::min(3, s.ncol())) : 1;
   std::vector<int> uids = pickUids(r, s, k);
   int type = -1;
-  if (variant == 4)
+  if (variant >= 4)
   {
     std::vector<int> have;
     for (int t : MULTI)
@@ -1072,56 +1071,58 @@ static bool gen_setItem(Rng& r, const Shadow& s, Op& op)
     type = r.pick(have);
     uids = s.loc[type];
   }
-  if (variant == 5 && (s.selUid() < 0 || !s.selClean() || s.nactive() == 0 || isSel(s, uids[0]))) variant = 1;
-  std::vector<int> rows = pickDistinct(r, nech, r.irange(1, std::min(4, nech)));
-  bool byRows           = variant == 0 || variant == 2;
-  int n                 = byRows ? (int)rows.size() : (variant == 5 ? s.nactive() : nech);
+  bool useSel = !AVOID_SETITEM_USESEL && s.selUid() >= 0 && s.selClean() && s.nactive() > 0 && r.coin(0.45);
+  for (int u : uids)
+    if (isSel(s, u)) useSel = false;
+  bool byRows = variant == 0 || variant == 2 || variant == 5;
+  if (byRows && useSel && AVOID_SETITEM_ROWS_USESEL) useSel = false;
+  // rows: ranks among all samples, or among the ACTIVE samples when useSel (Db.hpp DB_6: "useSel When TRUE, the rank
+  // corresponds to the *active* sample"; Db::getItem(rows, ..., useSel) reads them that way)
+  int nref              = useSel ? s.nactive() : nech;
+  std::vector<int> rows = pickDistinct(r, nref, r.irange(1, std::min(4, nref)));
+  int n                 = byRows ? (int)rows.size() : nref;
   std::vector<std::vector<double>> V;
   for (int u : uids) V.push_back(dvals(r, n, isSel(s, u)));
   std::vector<std::string> names = namesOf(s, uids);
-  static const char* N[] = {"setItem(rows,name)", "setItem(name)", "setItem(rows,names)", "setItem(names)", "setItem(locator)", "setItem(name,useSel)"};
+  static const char* N[] = {"setItem(rows,name)", "setItem(name)", "setItem(rows,names)", "setItem(names)", "setItem(locator)", "setItem(rows,locator)"};
   op.name = N[variant];
   op.fam  = "val";
-  op.args = (byRows ? pv(rows) + "," : std::string()) + (variant == 4 ? TN(type) : pv(names)) + ",values[0]=" + pv(V[0]);
+  op.args = (byRows ? pv(rows) + "," : std::string()) + (variant >= 4 ? TN(type) : pv(names)) + ",values[0]=" + pv(V[0]) + ",useSel=" + std::to_string(useSel);
   op.valid = [=](const Shadow& s) {
     if (s.nech != nech || !allLive(s, uids)) return false;
-    if (variant == 4 ? s.loc[type] != uids : !namesOk(s, uids, names)) return false;
-    if (variant == 4 && s.namesAmbiguous()) return false;
+    if (variant >= 4 ? s.loc[type] != uids : !namesOk(s, uids, names)) return false;
+    if (variant >= 4 && s.namesAmbiguous()) return false;
     for (size_t j = 0; j < uids.size(); j++)
-      if (isSel(s, uids[j]) && !Shadow::binary(V[j])) return false;
-    if (variant == 5 && (s.selUid() < 0 || !s.selClean() || s.nactive() != n || isSel(s, uids[0]))) return false;
+      if (isSel(s, uids[j]) && (!Shadow::binary(V[j]) || useSel)) return false;
+    if (useSel && (s.selUid() < 0 || !s.selClean() || s.nactive() != nref)) return false;
     return true;
   };
   op.run = [=](Db*& db, Shadow& s, Exp& e) {
     VectorVectorDouble vvd;
     for (auto& v : V) vvd.push_back(VectorDouble(v));
+    std::vector<int> act; // absolute rank of the k-th active sample
+    for (int i = 0; i < nech; i++)
+      if (!useSel || s.active(i)) act.push_back(i);
     int ret = -9;
     switch (variant)
     {
-      case 0: ret = db->setItem(VectorInt(rows), names[0], VectorDouble(V[0]), false); break;
-      case 1: ret = db->setItem(names[0], VectorDouble(V[0]), false); break;
-      case 2: ret = db->setItem(VectorInt(rows), VS(names), vvd, false); break;
-      case 3: ret = db->setItem(VS(names), vvd, false); break;
-      case 4: ret = db->setItem(EL(type), vvd, false); break;
-      case 5: ret = db->setItem(names[0], VectorDouble(V[0]), true); break;
+      case 0: ret = db->setItem(VectorInt(rows), names[0], VectorDouble(V[0]), useSel); break;
+      case 1: ret = db->setItem(names[0], VectorDouble(V[0]), useSel); break;
+      case 2: ret = db->setItem(VectorInt(rows), VS(names), vvd, useSel); break;
+      case 3: ret = db->setItem(VS(names), vvd, useSel); break;
+      case 4: ret = db->setItem(EL(type), vvd, useSel); break;
+      case 5: ret = db->setItem(VectorInt(rows), EL(type), vvd, useSel); break;
     }
     e.ret("setItem returned " + std::to_string(ret) + " want 0", ret == 0);
     for (size_t j = 0; j < uids.size(); j++)
     {
       std::vector<double>& col = s.cols[uids[j]].v;
       if (byRows)
-        for (size_t i = 0; i < rows.size(); i++) col[rows[i]] = V[j][i];
-      else if (variant == 5)
-      {
-        // the active samples receive the values in order (the count check of setItem is against the active count)
-        int lec = 0;
-        for (int i = 0; i < nech; i++)
-          if (s.active(i)) col[i] = V[j][lec++];
-        e.cls = "setItem-useSel";
-      }
+        for (size_t i = 0; i < rows.size(); i++) col[act[rows[i]]] = V[j][i];
       else
-        col = V[j];
+        for (size_t i = 0; i < act.size(); i++) col[act[i]] = V[j][i];
     }
+    if (useSel) e.cls = byRows ? "setItem-rows-useSel" : "setItem-useSel";
   };
   return true;
 }
@@ -1504,8 +1505,28 @@ struct RunResult
 
 // Runs `ops` from a fresh initial Db. When c != nullptr oracle evaluations are recorded (statistics + failures are
 // reported by the caller); otherwise the run is silent (used by the shrinker). `stopKey`: stop at its first occurrence.
+// A scripted step: the first operation produced by generator `g` (over a fixed sequence of sub-seeds) that satisfies
+// `pred`, for the state reached. Used by the dedicated probes, so that they go through exactly the same operation
+// models, keys and classes as the random histories.
+struct Scripted
+{
+  Gen g;
+  std::function<bool(const Op&)> pred;
+  std::string what;
+};
+static Op findOp(const Scripted& sc, const Shadow& s)
+{
+  for (uint64_t k = 0; k < 400000; k++)
+  {
+    Rng rr(0xC07C07 + k);
+    Op o;
+    if (sc.g(rr, s, o) && o.valid(s) && sc.pred(o)) return o;
+  }
+  throw std::logic_error("harness: scripted operation not found: " + sc.what);
+}
+
 static RunResult runHistory(const Init& in, std::vector<Op>& ops, Ctx* c, const std::string& stopKey, bool verbose,
-                            Rng* gen = nullptr, int genLen = 0)
+                            Rng* gen = nullptr, int genLen = 0, const std::vector<Scripted>* script = nullptr)
 {
   RunResult res;
   Db* db = buildInit(in);
@@ -1706,9 +1727,63 @@ static void run_case(Rng& r, Ctx& c)
     if (!th) len = u < 0.3 ? r.irange(5, 15) : u < 0.8 ? r.irange(16, 35) : r.irange(36, 60);
     else len = u < 0.25 ? r.irange(5, 20) : u < 0.7 ? r.irange(21, 60) : u < 0.93 ? r.irange(61, 150) : r.irange(151, 400);
   }
+  // Dedicated probes: one small scripted prefix per OPEN known-defect class, so that each of those keys is reached in
+  // every run (cases with index % 50 in 0..6); the history then goes on at random like any other.
+  std::vector<Scripted> script;
+  int probe = (int)(c.icase % 50);
+  if (probe <= 6)
+  {
+    in        = Init();
+    in.kind   = 0;
+    in.byCol  = true;
+    in.rank   = false;
+    in.coords = false;
+    in.nech   = 3;
+    auto argsIs = [](const std::string& n, const std::string& a) { return [=](const Op& o) { return o.name == n && o.args == a; }; };
+    switch (probe)
+    {
+      case 0: // a later name of the list, read as a pattern, matches the intermediate name of an earlier target
+        in.names = {"a", "b.1.1", "b-1"};
+        script.push_back({gen_rename, argsIs("setName(list)", "{'a','b.1.1'},'b-1'"), "setName(list) through a pattern"});
+        break;
+      case 1: // the de-duplication after setNameByLocator renames the later, untouched column
+        in.names = {"x", "y.1"};
+        in.locs  = {"z1", "NA"};
+        script.push_back({gen_rename, argsIs("setNameByLocator", "Z,'y'"), "setNameByLocator stealing a name"});
+        break;
+      case 2: // same through setName(list)
+        in.names = {"x", "y.1"};
+        script.push_back({gen_rename, argsIs("setName(list)", "{'x'},'y'"), "setName(list) stealing a name"});
+        break;
+      case 3: // 'y.1' read as a pattern also matches 'y-1': column 0 cannot be deleted by its index
+        in.names = {"y.1", "y-1", "c"};
+        script.push_back({gen_delete, argsIs("deleteColumnByColIdx", "0"), "deleteColumnByColIdx through an ambiguous name"});
+        break;
+      case 4: // re-asserting the role a column already has
+        in.names = {"a", "b", "c"};
+        in.locs  = {"z1", "z2", "z3"};
+        script.push_back({gen_setLocator, argsIs("setLocatorByUID", "0,Z,0"), "setLocatorByUID on its own role"});
+        break;
+      case 5: // default addSamples on a Db with a selection
+        in.names = {"a", "s"};
+        in.locs  = {"NA", "sel"};
+        script.push_back({gen_samples, argsIs("addSamples", "2"), "addSamples(2) with a selection"});
+        break;
+      case 6: // a new selection written through the selection
+        in.names = {"a", "s"};
+        in.locs  = {"NA", "sel"};
+        script.push_back({gen_addColumns, [](const Op& o) { return o.name == "addColumns" && o.args.find(",SEL,0,useSel=1,") != std::string::npos && o.args.find("nvar=1") != std::string::npos; }, "addColumns(SEL, useSel)"});
+        break;
+    }
+    in.nvar = (int)in.names.size();
+    in.tab.clear();
+    for (int iv = 0; iv < in.nvar; iv++)
+      for (int ie = 0; ie < in.nech; ie++) in.tab.push_back(in.names[iv] == "s" ? (ie == 1 ? 0. : 1.) : 1. + iv + 0.5 * ie);
+    c.probe("scripted-probe." + std::to_string(probe));
+  }
   // The history is generated while it runs (each operation is drawn for the state reached so far).
   std::vector<Op> ops;
-  RunResult rr = runHistory(in, ops, &c, "", c.verbose, &r, len);
+  RunResult rr = runHistory(in, ops, &c, "", c.verbose, &r, std::max(len, (int)script.size()), script.empty() ? nullptr : &script);
   // signature: discrete choices
   {
     std::string fams;
